@@ -349,7 +349,8 @@ pub fn run(args: &Args) -> ! {
     // capacity and fragmentation, for LF, CRLF and NUL terminators ----------
     {
         use grep_regex::RegexMatcherBuilder;
-        let pats = ["m\\z|\\Ax", "\\Am", "m\\z", "\\Ax|m\\z|xm", "(?-m)^m|x$"];
+        // (the last five have no literal a candidate-line search could use)
+        let pats = ["m\\z|\\Ax", "\\Am", "m\\z", "\\Ax|m\\z|xm", "(?-m)^m|x$", "\\A.", "\\A\\w+", "\\A[^-]", "(?-m)^[a-z]+", "\\A[l-y]+\\b"];
         let mut runs = 0u64;
         for (term, maxlen) in [(Term::Lf, 5usize), (Term::Crlf, 4), (Term::Nul, 5)] {
             let ins = inputs(term, tier.pick(maxlen, maxlen + 1));
@@ -420,7 +421,7 @@ pub fn run(args: &Args) -> ! {
     ev.set(
         "rule",
         format!(
-            "reference = the Sink event stream (begin, matched/context with bytes, line number, absolute offset, context_break, finish byte count) of search_slice. Compared against: search_reader with roll-buffer capacity in {:?} (hook) x EVERY composition of the input length as the sequence of read() return sizes (inputs up to length {}; five fixed fragmentations for the long family), heap limits 1..len+2 (error allowed only while the limit is below len+1, delivered events must then be a prefix), Interrupted injected at every read index on the multi-line reader path, search_path with MmapChoice::auto and never, search_file. Inputs: every byte string over {{m,x,terminator}} (+\\r under CRLF) up to length {:?} plus four long inputs of 30-62 bytes; configurations: (A,B) in 0..2 squared, passthru, invert, line numbers, stop_on_nonmatch, LF/CRLF/NUL, multi_line requested (with matchers that cannot match the terminator: line strategy; with one that can: true multi-line strategy); matcher line paths fast/candidate/slow/grep-regex, and under CRLF a grep-regex matcher built as `rg -U --crlf` builds it for a pattern that can match \\r but not \\n; every search with the multi-line request on a matcher that cannot match the terminator is also compared with the same search without the request; and under CRLF, for eleven patterns that can match neither \\n nor \\r (\\B, \\b, m*, m$, ...), the search as `rg --crlf P` builds it against the search as `rg -U --crlf P` builds it, on every input up to the bound; and five patterns with text anchors (\\A, \\z, non-multi-line ^ $) under LF / CRLF / NUL: slice against the reader for capacities 1,2,3,8 x read sizes 1,2,64 (whatever such anchors mean in line mode, the result may not depend on how the bytes arrive). Binary detection off. distinct_nontrivial = distinct (configuration, matcher, input) triples whose reference delivers at least one line.",
+            "reference = the Sink event stream (begin, matched/context with bytes, line number, absolute offset, context_break, finish byte count) of search_slice. Compared against: search_reader with roll-buffer capacity in {:?} (hook) x EVERY composition of the input length as the sequence of read() return sizes (inputs up to length {}; five fixed fragmentations for the long family), heap limits 1..len+2 (error allowed only while the limit is below len+1, delivered events must then be a prefix), Interrupted injected at every read index on the multi-line reader path, search_path with MmapChoice::auto and never, search_file. Inputs: every byte string over {{m,x,terminator}} (+\\r under CRLF) up to length {:?} plus four long inputs of 30-62 bytes; configurations: (A,B) in 0..2 squared, passthru, invert, line numbers, stop_on_nonmatch, LF/CRLF/NUL, multi_line requested (with matchers that cannot match the terminator: line strategy; with one that can: true multi-line strategy); matcher line paths fast/candidate/slow/grep-regex, and under CRLF a grep-regex matcher built as `rg -U --crlf` builds it for a pattern that can match \\r but not \\n; every search with the multi-line request on a matcher that cannot match the terminator is also compared with the same search without the request; and under CRLF, for eleven patterns that can match neither \\n nor \\r (\\B, \\b, m*, m$, ...), the search as `rg --crlf P` builds it against the search as `rg -U --crlf P` builds it, on every input up to the bound; and ten patterns with text anchors (five of them without any literal) (\\A, \\z, non-multi-line ^ $) under LF / CRLF / NUL: slice against the reader for capacities 1,2,3,8 x read sizes 1,2,64 (whatever such anchors mean in line mode, the result may not depend on how the bytes arrive). Binary detection off. distinct_nontrivial = distinct (configuration, matcher, input) triples whose reference delivers at least one line.",
             caps, tier.pick(5, 7), lens
         ),
     );
